@@ -1,1 +1,790 @@
-//! cqlref::proto - independent reference (see DESIGN.md 1.3). Owned by the builder of the property that needs it.
+//! cqlref::proto - independent CQL binary protocol v4 frame codec (DESIGN.md 1.3), written from
+//! `native_protocol_v4.spec` plus the ScyllaDB extensions the driver negotiates
+//! (SCYLLA_USE_METADATA_ID, SCYLLA_RATE_LIMIT_ERROR, CLIENT_ROUTES_CHANGE event). Shares no code with
+//! the driver. Three parts:
+//!   1. primitives (`Rd` reader, `W` writer that records where every length / count / flag / id
+//!      field was written - C08's field-aware mutations are driven by that list),
+//!   2. LZ4 block and Snappy raw codecs written from the format descriptions,
+//!   3. request parser (all 8 request kinds; C09's "independent protocol parser") and, in
+//!      `resp`, the response encoder (C08's corpus generator, the mock's serializer).
+//! Deliberately boring: vectors, linear scans, String errors.
+
+pub mod resp;
+
+// ------------------------------------------------------------------------------------------------
+// 1. primitives
+// ------------------------------------------------------------------------------------------------
+
+pub type PResult<T> = Result<T, String>;
+
+/// Bounds-checked big-endian reader over a byte slice.
+pub struct Rd<'a> {
+    pub buf: &'a [u8],
+    pub pos: usize,
+}
+
+impl<'a> Rd<'a> {
+    pub fn new(buf: &'a [u8]) -> Rd<'a> {
+        Rd { buf, pos: 0 }
+    }
+    pub fn remaining(&self) -> usize {
+        self.buf.len() - self.pos
+    }
+    pub fn take(&mut self, n: usize, what: &str) -> PResult<&'a [u8]> {
+        if self.remaining() < n {
+            return Err(format!("{what}: need {n} bytes at offset {}, only {} left", self.pos, self.remaining()));
+        }
+        let s = &self.buf[self.pos..self.pos + n];
+        self.pos += n;
+        Ok(s)
+    }
+    pub fn u8(&mut self, what: &str) -> PResult<u8> {
+        Ok(self.take(1, what)?[0])
+    }
+    pub fn u16(&mut self, what: &str) -> PResult<u16> {
+        let b = self.take(2, what)?;
+        Ok(u16::from_be_bytes([b[0], b[1]]))
+    }
+    pub fn i32(&mut self, what: &str) -> PResult<i32> {
+        let b = self.take(4, what)?;
+        Ok(i32::from_be_bytes([b[0], b[1], b[2], b[3]]))
+    }
+    pub fn i64(&mut self, what: &str) -> PResult<i64> {
+        let b = self.take(8, what)?;
+        let mut a = [0u8; 8];
+        a.copy_from_slice(b);
+        Ok(i64::from_be_bytes(a))
+    }
+    /// [string]: u16 length + UTF-8
+    pub fn string(&mut self, what: &str) -> PResult<String> {
+        let n = self.u16(what)? as usize;
+        let b = self.take(n, what)?;
+        String::from_utf8(b.to_vec()).map_err(|_| format!("{what}: not UTF-8"))
+    }
+    /// [long string]: i32 length (>= 0) + UTF-8
+    pub fn long_string(&mut self, what: &str) -> PResult<String> {
+        let n = self.i32(what)?;
+        if n < 0 {
+            return Err(format!("{what}: negative [long string] length {n}"));
+        }
+        let b = self.take(n as usize, what)?;
+        String::from_utf8(b.to_vec()).map_err(|_| format!("{what}: not UTF-8"))
+    }
+    /// [bytes]: i32 length, negative = null
+    pub fn bytes_opt(&mut self, what: &str) -> PResult<Option<Vec<u8>>> {
+        let n = self.i32(what)?;
+        if n < 0 {
+            return Ok(None);
+        }
+        Ok(Some(self.take(n as usize, what)?.to_vec()))
+    }
+    /// [short bytes]
+    pub fn short_bytes(&mut self, what: &str) -> PResult<Vec<u8>> {
+        let n = self.u16(what)? as usize;
+        Ok(self.take(n, what)?.to_vec())
+    }
+    pub fn string_list(&mut self, what: &str) -> PResult<Vec<String>> {
+        let n = self.u16(what)?;
+        let mut v = Vec::new();
+        for _ in 0..n {
+            v.push(self.string(what)?);
+        }
+        Ok(v)
+    }
+    /// [string map] in wire order (duplicates kept)
+    pub fn string_map(&mut self, what: &str) -> PResult<Vec<(String, String)>> {
+        let n = self.u16(what)?;
+        let mut v = Vec::new();
+        for _ in 0..n {
+            let k = self.string(what)?;
+            let val = self.string(what)?;
+            v.push((k, val));
+        }
+        Ok(v)
+    }
+    /// [value]: i32 length; -1 null; -2 not set
+    pub fn value(&mut self, what: &str) -> PResult<Val> {
+        let n = self.i32(what)?;
+        match n {
+            -1 => Ok(Val::Null),
+            -2 => Ok(Val::Unset),
+            n if n < 0 => Err(format!("{what}: invalid [value] length {n}")),
+            n => Ok(Val::Bytes(self.take(n as usize, what)?.to_vec())),
+        }
+    }
+}
+
+#[derive(Debug, Clone, Copy, PartialEq, Eq, PartialOrd, Ord, Hash)]
+pub enum FieldKind {
+    /// byte length of what follows (string, bytes, frame body)
+    Len,
+    /// element count of what follows
+    Count,
+    /// bit flags
+    Flags,
+    /// discriminator: result kind, type id, error code, opcode, version, consistency ...
+    Id,
+}
+
+/// A length/count/flag/id field written by the encoder: C08 mutates exactly these.
+#[derive(Debug, Clone, PartialEq, Eq)]
+pub struct Field {
+    pub off: usize,
+    pub width: u8,
+    pub kind: FieldKind,
+    /// stable name of the protocol field (decode-site vocabulary of the violation keys)
+    pub site: &'static str,
+}
+
+/// Big-endian writer that records field positions.
+#[derive(Default, Clone)]
+pub struct W {
+    pub buf: Vec<u8>,
+    pub fields: Vec<Field>,
+}
+
+impl W {
+    pub fn new() -> W {
+        W::default()
+    }
+    fn mark(&mut self, width: u8, kind: FieldKind, site: &'static str) {
+        self.fields.push(Field { off: self.buf.len(), width, kind, site });
+    }
+    pub fn raw(&mut self, b: &[u8]) {
+        self.buf.extend_from_slice(b);
+    }
+    pub fn u8(&mut self, v: u8) {
+        self.buf.push(v);
+    }
+    pub fn u16(&mut self, v: u16) {
+        self.buf.extend_from_slice(&v.to_be_bytes());
+    }
+    pub fn i32(&mut self, v: i32) {
+        self.buf.extend_from_slice(&v.to_be_bytes());
+    }
+    pub fn i64(&mut self, v: i64) {
+        self.buf.extend_from_slice(&v.to_be_bytes());
+    }
+    pub fn u8f(&mut self, site: &'static str, kind: FieldKind, v: u8) {
+        self.mark(1, kind, site);
+        self.u8(v);
+    }
+    pub fn u16f(&mut self, site: &'static str, kind: FieldKind, v: u16) {
+        self.mark(2, kind, site);
+        self.u16(v);
+    }
+    pub fn i32f(&mut self, site: &'static str, kind: FieldKind, v: i32) {
+        self.mark(4, kind, site);
+        self.i32(v);
+    }
+    pub fn string(&mut self, site: &'static str, s: &str) {
+        self.u16f(site, FieldKind::Len, s.len() as u16);
+        self.raw(s.as_bytes());
+    }
+    /// a [string] whose content is raw bytes (used to produce invalid UTF-8 on purpose)
+    pub fn string_raw(&mut self, site: &'static str, s: &[u8]) {
+        self.u16f(site, FieldKind::Len, s.len() as u16);
+        self.raw(s);
+    }
+    pub fn long_string(&mut self, site: &'static str, s: &str) {
+        self.i32f(site, FieldKind::Len, s.len() as i32);
+        self.raw(s.as_bytes());
+    }
+    pub fn bytes_opt(&mut self, site: &'static str, b: Option<&[u8]>) {
+        match b {
+            None => self.i32f(site, FieldKind::Len, -1),
+            Some(b) => {
+                self.i32f(site, FieldKind::Len, b.len() as i32);
+                self.raw(b);
+            }
+        }
+    }
+    pub fn short_bytes(&mut self, site: &'static str, b: &[u8]) {
+        self.u16f(site, FieldKind::Len, b.len() as u16);
+        self.raw(b);
+    }
+    pub fn string_list(&mut self, count_site: &'static str, elem_site: &'static str, l: &[String]) {
+        self.u16f(count_site, FieldKind::Count, l.len() as u16);
+        for s in l {
+            self.string(elem_site, s);
+        }
+    }
+}
+
+// ------------------------------------------------------------------------------------------------
+// 2. compression (LZ4 block format; Snappy raw format)
+// ------------------------------------------------------------------------------------------------
+
+#[derive(Debug, Clone, Copy, PartialEq, Eq, PartialOrd, Ord, Hash)]
+pub enum Comp {
+    None,
+    Lz4,
+    Snappy,
+}
+
+/// LZ4 block decoder (lz4 Block Format description): a block is a series of sequences
+/// `token | [literal length bytes] | literals | offset(2, LE) | [match length bytes]`;
+/// the last sequence ends after its literals.
+pub fn lz4_block_decompress(src: &[u8], expected_len: usize) -> PResult<Vec<u8>> {
+    let mut out: Vec<u8> = Vec::with_capacity(expected_len.min(1 << 24));
+    let mut i = 0usize;
+    if src.is_empty() {
+        return if expected_len == 0 { Ok(out) } else { Err("lz4: empty block".into()) };
+    }
+    loop {
+        let token = *src.get(i).ok_or("lz4: missing token")?;
+        i += 1;
+        let mut lit = (token >> 4) as usize;
+        if lit == 15 {
+            loop {
+                let b = *src.get(i).ok_or("lz4: truncated literal length")?;
+                i += 1;
+                lit += b as usize;
+                if b != 255 {
+                    break;
+                }
+            }
+        }
+        if i + lit > src.len() {
+            return Err("lz4: literals run past the end".into());
+        }
+        out.extend_from_slice(&src[i..i + lit]);
+        i += lit;
+        if i == src.len() {
+            break; // last sequence: literals only
+        }
+        if i + 2 > src.len() {
+            return Err("lz4: truncated offset".into());
+        }
+        let off = src[i] as usize | ((src[i + 1] as usize) << 8);
+        i += 2;
+        if off == 0 || off > out.len() {
+            return Err(format!("lz4: invalid offset {off} with {} bytes produced", out.len()));
+        }
+        let mut mlen = (token & 0x0f) as usize;
+        if mlen == 15 {
+            loop {
+                let b = *src.get(i).ok_or("lz4: truncated match length")?;
+                i += 1;
+                mlen += b as usize;
+                if b != 255 {
+                    break;
+                }
+            }
+        }
+        mlen += 4;
+        let start = out.len() - off;
+        for k in 0..mlen {
+            let b = out[start + k];
+            out.push(b);
+        }
+        if out.len() > expected_len {
+            return Err("lz4: output longer than announced".into());
+        }
+    }
+    if out.len() != expected_len {
+        return Err(format!("lz4: produced {} bytes, announced {}", out.len(), expected_len));
+    }
+    Ok(out)
+}
+
+fn lz4_put_len(out: &mut Vec<u8>, mut extra: usize) {
+    while extra >= 255 {
+        out.push(255);
+        extra -= 255;
+    }
+    out.push(extra as u8);
+}
+
+/// LZ4 block encoder: greedy matcher over a 4-byte hash table, honouring the end-of-block rules
+/// (last 5 bytes are literals; last match starts >= 12 bytes before the end). `matches=false`
+/// emits one literal-only sequence (also a valid block).
+pub fn lz4_block_compress(src: &[u8], matches: bool) -> Vec<u8> {
+    let mut out = Vec::with_capacity(src.len() + src.len() / 255 + 16);
+    let n = src.len();
+    let mut anchor = 0usize;
+    let mut i = 0usize;
+    let mut table: Vec<usize> = vec![usize::MAX; 1 << 12];
+    let emit = |out: &mut Vec<u8>, lits: &[u8], m: Option<(usize, usize)>| {
+        let ll = lits.len();
+        let ml = m.map(|(_, l)| l - 4).unwrap_or(0);
+        let token = ((ll.min(15) as u8) << 4) | (ml.min(15) as u8);
+        out.push(token);
+        if ll >= 15 {
+            lz4_put_len(out, ll - 15);
+        }
+        out.extend_from_slice(lits);
+        if let Some((off, _)) = m {
+            out.push(off as u8);
+            out.push((off >> 8) as u8);
+            if ml >= 15 {
+                lz4_put_len(out, ml - 15);
+            }
+        }
+    };
+    if matches && n >= 13 {
+        let limit = n - 12; // a match may not start after this
+        while i < limit {
+            let key = u32::from_le_bytes([src[i], src[i + 1], src[i + 2], src[i + 3]]);
+            let h = (key.wrapping_mul(2654435761) >> 20) as usize & 0xfff;
+            let cand = table[h];
+            table[h] = i;
+            if cand != usize::MAX && i - cand <= 0xffff && src[cand..cand + 4] == src[i..i + 4] {
+                let mut l = 4;
+                while i + l < n - 5 && src[cand + l] == src[i + l] {
+                    l += 1;
+                }
+                emit(&mut out, &src[anchor..i], Some((i - cand, l)));
+                i += l;
+                anchor = i;
+            } else {
+                i += 1;
+            }
+        }
+    }
+    emit(&mut out, &src[anchor..], None);
+    out
+}
+
+/// CQL's LZ4 body: 4-byte big-endian uncompressed length, then one LZ4 block.
+pub fn cql_lz4_decompress(body: &[u8]) -> PResult<Vec<u8>> {
+    if body.len() < 4 {
+        return Err("lz4 body shorter than its length prefix".into());
+    }
+    let n = u32::from_be_bytes([body[0], body[1], body[2], body[3]]) as usize;
+    lz4_block_decompress(&body[4..], n)
+}
+pub fn cql_lz4_compress(body: &[u8], matches: bool) -> Vec<u8> {
+    let mut out = (body.len() as u32).to_be_bytes().to_vec();
+    out.extend(lz4_block_compress(body, matches));
+    out
+}
+
+/// Snappy raw format decoder (format_description.txt): varint uncompressed length, then elements
+/// tagged in the low two bits: 00 literal, 01 copy/1-byte offset, 10 copy/2-byte offset, 11 copy/4-byte offset.
+pub fn snappy_decompress(src: &[u8]) -> PResult<Vec<u8>> {
+    let mut i = 0usize;
+    let mut n: u64 = 0;
+    let mut shift = 0;
+    loop {
+        let b = *src.get(i).ok_or("snappy: truncated length preamble")?;
+        i += 1;
+        n |= ((b & 0x7f) as u64) << shift;
+        if b & 0x80 == 0 {
+            break;
+        }
+        shift += 7;
+        if shift > 35 {
+            return Err("snappy: length preamble too long".into());
+        }
+    }
+    if n > u32::MAX as u64 {
+        return Err("snappy: length above 2^32-1".into());
+    }
+    let n = n as usize;
+    let mut out: Vec<u8> = Vec::with_capacity(n.min(1 << 24));
+    while i < src.len() {
+        let tag = src[i];
+        i += 1;
+        let (len, off) = match tag & 3 {
+            0 => {
+                let mut l = (tag >> 2) as usize;
+                if l >= 60 {
+                    let nb = l - 59;
+                    if i + nb > src.len() {
+                        return Err("snappy: truncated literal length".into());
+                    }
+                    l = 0;
+                    for k in 0..nb {
+                        l |= (src[i + k] as usize) << (8 * k);
+                    }
+                    i += nb;
+                }
+                let l = l + 1;
+                if i + l > src.len() {
+                    return Err("snappy: literal runs past the end".into());
+                }
+                out.extend_from_slice(&src[i..i + l]);
+                i += l;
+                if out.len() > n {
+                    return Err("snappy: output longer than announced".into());
+                }
+                continue;
+            }
+            1 => {
+                let b = *src.get(i).ok_or("snappy: truncated copy")? as usize;
+                i += 1;
+                ((((tag >> 2) & 7) as usize) + 4, (((tag >> 5) as usize) << 8) | b)
+            }
+            2 => {
+                if i + 2 > src.len() {
+                    return Err("snappy: truncated copy".into());
+                }
+                let o = src[i] as usize | ((src[i + 1] as usize) << 8);
+                i += 2;
+                ((tag >> 2) as usize + 1, o)
+            }
+            _ => {
+                if i + 4 > src.len() {
+                    return Err("snappy: truncated copy".into());
+                }
+                let o = u32::from_le_bytes([src[i], src[i + 1], src[i + 2], src[i + 3]]) as usize;
+                i += 4;
+                ((tag >> 2) as usize + 1, o)
+            }
+        };
+        if off == 0 || off > out.len() {
+            return Err(format!("snappy: invalid offset {off} with {} bytes produced", out.len()));
+        }
+        let start = out.len() - off;
+        for k in 0..len {
+            let b = out[start + k];
+            out.push(b);
+        }
+        if out.len() > n {
+            return Err("snappy: output longer than announced".into());
+        }
+    }
+    if out.len() != n {
+        return Err(format!("snappy: produced {} bytes, announced {}", out.len(), n));
+    }
+    Ok(out)
+}
+
+/// Snappy raw encoder: varint length + literals (chunks of <= 65536) and, with `matches`, greedy
+/// 2-byte-offset copies found through a 4-byte hash table.
+pub fn snappy_compress(src: &[u8], matches: bool) -> Vec<u8> {
+    let mut out = Vec::with_capacity(src.len() + src.len() / 60 + 8);
+    let mut n = src.len() as u64;
+    loop {
+        let b = (n & 0x7f) as u8;
+        n >>= 7;
+        if n == 0 {
+            out.push(b);
+            break;
+        }
+        out.push(b | 0x80);
+    }
+    fn literal(out: &mut Vec<u8>, mut lits: &[u8]) {
+        while !lits.is_empty() {
+            let take = lits.len().min(65536);
+            let l = take - 1;
+            if l < 60 {
+                out.push((l as u8) << 2);
+            } else if l < 256 {
+                out.push(60 << 2);
+                out.push(l as u8);
+            } else {
+                out.push(61 << 2);
+                out.push(l as u8);
+                out.push((l >> 8) as u8);
+            }
+            out.extend_from_slice(&lits[..take]);
+            lits = &lits[take..];
+        }
+    }
+    let nlen = src.len();
+    let mut anchor = 0usize;
+    let mut i = 0usize;
+    if matches && nlen >= 8 {
+        let mut table: Vec<usize> = vec![usize::MAX; 1 << 12];
+        while i + 4 <= nlen {
+            let key = u32::from_le_bytes([src[i], src[i + 1], src[i + 2], src[i + 3]]);
+            let h = (key.wrapping_mul(0x1e35a7bd) >> 20) as usize & 0xfff;
+            let cand = table[h];
+            table[h] = i;
+            if cand != usize::MAX && i - cand <= 0xffff && src[cand..cand + 4] == src[i..i + 4] {
+                let mut l = 4;
+                while i + l < nlen && l < 64 && src[cand + l] == src[i + l] {
+                    l += 1;
+                }
+                literal(&mut out, &src[anchor..i]);
+                let off = i - cand;
+                out.push((((l - 1) as u8) << 2) | 2);
+                out.push(off as u8);
+                out.push((off >> 8) as u8);
+                i += l;
+                anchor = i;
+            } else {
+                i += 1;
+            }
+        }
+    }
+    literal(&mut out, &src[anchor..]);
+    out
+}
+
+pub fn cql_decompress(comp: Comp, body: &[u8]) -> PResult<Vec<u8>> {
+    match comp {
+        Comp::None => Ok(body.to_vec()),
+        Comp::Lz4 => cql_lz4_decompress(body),
+        Comp::Snappy => snappy_decompress(body),
+    }
+}
+pub fn cql_compress(comp: Comp, body: &[u8], matches: bool) -> Vec<u8> {
+    match comp {
+        Comp::None => body.to_vec(),
+        Comp::Lz4 => cql_lz4_compress(body, matches),
+        Comp::Snappy => snappy_compress(body, matches),
+    }
+}
+
+// ------------------------------------------------------------------------------------------------
+// 3. frame header + request parser
+// ------------------------------------------------------------------------------------------------
+
+pub const FLAG_COMPRESSION: u8 = 0x01;
+pub const FLAG_TRACING: u8 = 0x02;
+pub const FLAG_CUSTOM_PAYLOAD: u8 = 0x04;
+pub const FLAG_WARNING: u8 = 0x08;
+
+pub mod opcode {
+    pub const ERROR: u8 = 0x00;
+    pub const STARTUP: u8 = 0x01;
+    pub const READY: u8 = 0x02;
+    pub const AUTHENTICATE: u8 = 0x03;
+    pub const OPTIONS: u8 = 0x05;
+    pub const SUPPORTED: u8 = 0x06;
+    pub const QUERY: u8 = 0x07;
+    pub const RESULT: u8 = 0x08;
+    pub const PREPARE: u8 = 0x09;
+    pub const EXECUTE: u8 = 0x0A;
+    pub const REGISTER: u8 = 0x0B;
+    pub const EVENT: u8 = 0x0C;
+    pub const BATCH: u8 = 0x0D;
+    pub const AUTH_CHALLENGE: u8 = 0x0E;
+    pub const AUTH_RESPONSE: u8 = 0x0F;
+    pub const AUTH_SUCCESS: u8 = 0x10;
+}
+
+#[derive(Debug, Clone, Copy, PartialEq, Eq)]
+pub struct Header {
+    pub version: u8,
+    pub flags: u8,
+    pub stream: i16,
+    pub opcode: u8,
+    pub length: u32,
+}
+
+pub const HEADER_LEN: usize = 9;
+
+pub fn parse_header(frame: &[u8]) -> PResult<Header> {
+    if frame.len() < HEADER_LEN {
+        return Err(format!("frame of {} bytes is shorter than a header", frame.len()));
+    }
+    Ok(Header {
+        version: frame[0],
+        flags: frame[1],
+        stream: i16::from_be_bytes([frame[2], frame[3]]),
+        opcode: frame[4],
+        length: u32::from_be_bytes([frame[5], frame[6], frame[7], frame[8]]),
+    })
+}
+
+#[derive(Debug, Clone, PartialEq, Eq)]
+pub enum Val {
+    Null,
+    Unset,
+    Bytes(Vec<u8>),
+}
+
+/// `<query_parameters>` of QUERY / EXECUTE.
+#[derive(Debug, Clone, PartialEq, Eq)]
+pub struct QueryParams {
+    pub consistency: u16,
+    pub flags: u8,
+    /// Some iff flag 0x01 was set
+    pub values: Option<Vec<Val>>,
+    pub skip_metadata: bool,
+    pub page_size: Option<i32>,
+    pub paging_state: Option<Vec<u8>>,
+    pub serial_consistency: Option<u16>,
+    pub timestamp: Option<i64>,
+}
+
+#[derive(Debug, Clone, PartialEq, Eq)]
+pub enum BatchStmt {
+    Query(String),
+    Prepared(Vec<u8>),
+}
+
+#[derive(Debug, Clone, PartialEq, Eq)]
+pub enum Request {
+    Startup(Vec<(String, String)>),
+    Options,
+    Query { text: String, params: QueryParams },
+    Prepare { text: String },
+    Execute { id: Vec<u8>, result_metadata_id: Option<Vec<u8>>, params: QueryParams },
+    Register(Vec<String>),
+    Batch { batch_type: u8, statements: Vec<(BatchStmt, Vec<Val>)>, consistency: u16, flags: u8, serial_consistency: Option<u16>, timestamp: Option<i64> },
+    AuthResponse(Option<Vec<u8>>),
+}
+
+fn check_consistency(c: u16, what: &str) -> PResult<u16> {
+    if c <= 0x000A { Ok(c) } else { Err(format!("{what}: unknown consistency {c:#06x}")) }
+}
+fn check_serial(c: u16) -> PResult<u16> {
+    if c == 0x0008 || c == 0x0009 { Ok(c) } else { Err(format!("serial consistency must be SERIAL or LOCAL_SERIAL, got {c:#06x}")) }
+}
+
+fn parse_values(r: &mut Rd, what: &str) -> PResult<Vec<Val>> {
+    let n = r.u16(what)?;
+    let mut v = Vec::with_capacity(n as usize);
+    for _ in 0..n {
+        v.push(r.value(what)?);
+    }
+    Ok(v)
+}
+
+pub fn parse_query_params(r: &mut Rd) -> PResult<QueryParams> {
+    let consistency = check_consistency(r.u16("consistency")?, "query parameters")?;
+    let flags = r.u8("query flags")?;
+    if flags & 0x80 != 0 {
+        return Err(format!("unknown query flag bits in {flags:#04x}"));
+    }
+    if flags & 0x40 != 0 {
+        return Err("names-for-values flag set (the driver never sends named values)".into());
+    }
+    let values = if flags & 0x01 != 0 { Some(parse_values(r, "values")?) } else { None };
+    let skip_metadata = flags & 0x02 != 0;
+    let page_size = if flags & 0x04 != 0 { Some(r.i32("result_page_size")?) } else { None };
+    let paging_state = if flags & 0x08 != 0 {
+        Some(r.bytes_opt("paging_state")?.ok_or("paging_state flag set but [bytes] is null")?)
+    } else {
+        None
+    };
+    let serial_consistency = if flags & 0x10 != 0 { Some(check_serial(r.u16("serial_consistency")?)?) } else { None };
+    let timestamp = if flags & 0x20 != 0 { Some(r.i64("timestamp")?) } else { None };
+    Ok(QueryParams { consistency, flags, values, skip_metadata, page_size, paging_state, serial_consistency, timestamp })
+}
+
+pub const KNOWN_EVENT_TYPES: [&str; 4] = ["TOPOLOGY_CHANGE", "STATUS_CHANGE", "SCHEMA_CHANGE", "CLIENT_ROUTES_CHANGE"];
+
+/// Parse a request body (already decompressed). `metadata_id_ext`: SCYLLA_USE_METADATA_ID negotiated,
+/// i.e. EXECUTE carries `<result_metadata_id>` after `<id>`. The whole body must be consumed.
+pub fn parse_request_body(op: u8, body: &[u8], metadata_id_ext: bool) -> PResult<Request> {
+    let mut r = Rd::new(body);
+    let req = match op {
+        opcode::STARTUP => Request::Startup(r.string_map("STARTUP options")?),
+        opcode::OPTIONS => Request::Options,
+        opcode::QUERY => {
+            let text = r.long_string("QUERY text")?;
+            let params = parse_query_params(&mut r)?;
+            Request::Query { text, params }
+        }
+        opcode::PREPARE => Request::Prepare { text: r.long_string("PREPARE text")? },
+        opcode::EXECUTE => {
+            let id = r.short_bytes("EXECUTE id")?;
+            let result_metadata_id = if metadata_id_ext { Some(r.short_bytes("EXECUTE result_metadata_id")?) } else { None };
+            let params = parse_query_params(&mut r)?;
+            Request::Execute { id, result_metadata_id, params }
+        }
+        opcode::REGISTER => {
+            let l = r.string_list("REGISTER event types")?;
+            for e in &l {
+                if !KNOWN_EVENT_TYPES.contains(&e.as_str()) {
+                    return Err(format!("REGISTER: unknown event type {e:?}"));
+                }
+            }
+            Request::Register(l)
+        }
+        opcode::BATCH => {
+            let batch_type = r.u8("BATCH type")?;
+            if batch_type > 2 {
+                return Err(format!("BATCH: unknown type {batch_type}"));
+            }
+            let n = r.u16("BATCH statement count")?;
+            let mut statements = Vec::with_capacity(n as usize);
+            for i in 0..n {
+                let kind = r.u8("BATCH statement kind")?;
+                let st = match kind {
+                    0 => BatchStmt::Query(r.long_string("BATCH statement text")?),
+                    1 => BatchStmt::Prepared(r.short_bytes("BATCH statement id")?),
+                    k => return Err(format!("BATCH statement {i}: unknown kind {k}")),
+                };
+                let vals = parse_values(&mut r, "BATCH statement values")?;
+                statements.push((st, vals));
+            }
+            let consistency = check_consistency(r.u16("BATCH consistency")?, "BATCH")?;
+            let flags = r.u8("BATCH flags")?;
+            if flags & !(0x10 | 0x20) != 0 {
+                return Err(format!("BATCH: unknown/unsupported flag bits in {flags:#04x}"));
+            }
+            let serial_consistency = if flags & 0x10 != 0 { Some(check_serial(r.u16("BATCH serial_consistency")?)?) } else { None };
+            let timestamp = if flags & 0x20 != 0 { Some(r.i64("BATCH timestamp")?) } else { None };
+            Request::Batch { batch_type, statements, consistency, flags, serial_consistency, timestamp }
+        }
+        opcode::AUTH_RESPONSE => Request::AuthResponse(r.bytes_opt("AUTH_RESPONSE token")?),
+        other => return Err(format!("opcode {other:#04x} is not a request opcode")),
+    };
+    if r.remaining() != 0 {
+        return Err(format!("{} trailing bytes after the request body", r.remaining()));
+    }
+    Ok(req)
+}
+
+/// A fully parsed request frame.
+#[derive(Debug, Clone, PartialEq, Eq)]
+pub struct RequestFrame {
+    pub header: Header,
+    /// body after decompression
+    pub body: Vec<u8>,
+    pub request: Request,
+}
+
+/// Parse a complete request frame as a server would: header checks (version 4 request direction,
+/// only COMPRESSION/TRACING flags, length == bytes that follow), decompression with the
+/// negotiated algorithm, body parse.
+pub fn parse_request_frame(frame: &[u8], negotiated: Comp, metadata_id_ext: bool) -> PResult<RequestFrame> {
+    let header = parse_header(frame)?;
+    if header.version != 0x04 {
+        return Err(format!("version byte {:#04x}, expected 0x04 (request, protocol v4)", header.version));
+    }
+    if header.flags & !(FLAG_COMPRESSION | FLAG_TRACING) != 0 {
+        return Err(format!("unexpected header flags {:#04x}", header.flags));
+    }
+    let rest = &frame[HEADER_LEN..];
+    if header.length as usize != rest.len() {
+        return Err(format!("header length {} but {} body bytes follow", header.length, rest.len()));
+    }
+    let body = if header.flags & FLAG_COMPRESSION != 0 {
+        if negotiated == Comp::None {
+            return Err("COMPRESSION flag set but no compression negotiated".into());
+        }
+        cql_decompress(negotiated, rest)?
+    } else {
+        rest.to_vec()
+    };
+    let request = parse_request_body(header.opcode, &body, metadata_id_ext)?;
+    Ok(RequestFrame { header, body, request })
+}
+
+#[cfg(test)]
+mod tests {
+    use super::*;
+
+    #[test]
+    fn lz4_known_vector() {
+        // vector pinned in the repo's unit test: ", World!" -> 0x80 + literals
+        assert_eq!(lz4_block_decompress(&[128, 44, 32, 87, 111, 114, 108, 100, 33], 8).unwrap(), b", World!");
+        let s = "Hello, World!".repeat(100);
+        for m in [false, true] {
+            let c = lz4_block_compress(s.as_bytes(), m);
+            assert_eq!(lz4_block_decompress(&c, s.len()).unwrap(), s.as_bytes());
+            if m {
+                assert!(c.len() < 60);
+            }
+        }
+    }
+
+    #[test]
+    fn snappy_round_trip() {
+        let s = "Hello, World!".repeat(100);
+        for m in [false, true] {
+            let c = snappy_compress(s.as_bytes(), m);
+            assert_eq!(snappy_decompress(&c).unwrap(), s.as_bytes());
+        }
+        // spec example: "Wikipedia" style literal
+        assert_eq!(snappy_decompress(&[3, 0x08, b'a', b'b', b'c']).unwrap(), b"abc");
+    }
+}
